@@ -96,7 +96,7 @@ def run(chk):
             base = h.compile(src, level)
             if base["status"] != "ok":
                 chk.count("compile_" + base["status"]); break
-            states, lay = coexec.init_states(base, nstates, seed=hash(src) & 0xFFFFFF)
+            states, lay = coexec.init_states(base, nstates, seed=stable_hash(src))
             b_out, _ = coexec.run_all(m, "c14", base, states, lay)
             if b_out is None:
                 chk.count("unloadable"); break
